@@ -562,7 +562,7 @@ def run_case(case):
             st['nev'] = st.get('nev', 0) + 1
             if isinstance(st.get('inject'), (list, tuple)) and st['inject'][0] == 'event' and st['nev'] == st['inject'][1]:
                 raise Injected(f"event {st['nev']}")
-            cur.update(h=t, clock=d.currentSimulationTime(), ef=orig, posted=posted_time is not None,
+            cur.update(fresh=True, h=t, clock=d.currentSimulationTime(), ef=orig, posted=posted_time is not None,
                        own=posted_time if posted_time is not None else t, locus=locus,
                        member=is_member(locus, e) if locus is not None else True)
             if locus is not None and case['dyn'] == 'syn' and st.get('tranche') is not None:
@@ -601,6 +601,13 @@ def run_case(case):
 
         def eventFired(self, t, p, name, e):
             ex = st['ex']
+            if not cur.get('fresh') and hp.get('last') is not None:
+                # the event reached the queue without passing through postEvent (so it was not wrapped): take what can be known from the
+                # heap entry itself
+                last = hp['last']
+                cur.update(h=last[0], clock=self.currentSimulationTime(), ef=getattr(_thunk_ef(last[3]), '_orig', _thunk_ef(last[3])), posted=True,
+                           own=last[0], locus=None, member=True)
+            cur['fresh'] = False
             key = ex.hnames[ex.hid(cur['ef'])]
             kind = ex.hkind.get(key, 'N')
             es = 'None' if e is None else str(L(e))
@@ -700,6 +707,27 @@ def run_case(case):
     LABELS.clear(); LABELS.update({lab_of(case)(n): n for n in case['nodes']} if case.get('strlabels') else {})
     gen0 = mkgen(case)
     d = D(top, gen0)
+    # C04 at the level of the heap itself (whatever API put the entry there): a live entry that is popped must be the one with the
+    # smallest time among the live pending entries and, among those with that time, the one pushed first
+    import heapq as _hq, epydemic.networkdynamics as _nd
+    hp = dict(seq=0, live={})
+
+    def _hpush(h, ev):
+        hp['seq'] += 1; hp['live'][id(ev)] = (ev[0], hp['seq'], ev)
+        return _hq.heappush(h, ev)
+
+    def _hpop(h):
+        ev = _hq.heappop(h)
+        me = hp['live'].pop(id(ev), None)
+        if len(ev) > 3 and ev[3] is not None: hp['last'] = ev
+        if me is not None and len(ev) > 3 and ev[3] is not None:
+            others = [(t, sq) for (t, sq, o) in hp['live'].values() if len(o) > 3 and o[3] is not None]
+            early = [x for x in others if x[0] < me[0]]
+            tie = [x for x in others if x[0] == me[0] and x[1] < me[1]]
+            if early: qviol(f"posted event for t={me[0]} taken off the queue while an event for t={min(early)[0]} is still pending")
+            elif tie: qviol(f"posted event for t={me[0]} (posted {me[1]}-th) taken off the queue before an earlier-posted event for the same time (posted {min(tie)[1]}-th)")
+        return ev
+    _nd.heappush = _hpush; _nd.heappop = _hpop
     if case.get('preattr') is not None:
         # the network handed to the experiment already carries this model's state attributes (e.g. the residual network of an earlier run)
         def attrs(g, seed=case['preattr']):
@@ -825,7 +853,7 @@ def run_case(case):
         exp.clear(); sr.lines.clear(); sr.recent.clear(); sr.values.clear(); sr.nspecial = 0
         keep = dict(hist_done=info.get('hist_done', 0), hist_injected=info.get('hist_injected', 0), hist_cut=info.get('hist_cut', 0), hist_exc=info.get('hist_exc'))
         info.clear(); info.update(events=0, posted=0, stale=0, handlers=set(), exc=None, oracle=[], **keep)
-        st.clear(); cur.clear(); ref.clear(); qv.clear()
+        st.clear(); cur.clear(); ref.clear(); qv.clear(); hp['live'].clear()
         for k in [k for k in d.__dict__ if k.startswith('_vp_')]: del d.__dict__[k]
     if case.get('history'):
         st['inject'] = None
@@ -883,6 +911,7 @@ def run_case(case):
         exp.append(f"EXC {type(ex_).__name__}")
         if isinstance(ex_, KeyError) and any(getattr(o, '__name__', '') == 'oracle_compose' for o in case.get('oracles', ())):
             info['oracle'].append(('compose', f"KeyError {ex_} although every parameter is supplied under the instance's decorated name or the shared name"))
+    _nd.heappush = _hq.heappush; _nd.heappop = _hq.heappop
     g0 = Gen(case['nodes'], case['edges'])._generate({})
     if case.get('history') and case.get('fixed_proto'): g0 = g0.copy()      # what FixedNetwork hands out (networkx copy() re-inserts adjacency)
     inp = ["RESET", "NODES " + ' '.join(map(str, g0.nodes()))]
